@@ -126,9 +126,12 @@ class Watch:
         self.hist = {n: {k: [(0, ABSENT)] for k in self.keys} for n in stores}
         self.futs = []                          # [tag, future, resolved_at_ns | None, snapshot]
         self.on_resolved = None
+        self._open = None                       # unresolved futures (built at the first event)
 
     def watch_future(self, tag, fut):
         self.futs.append([tag, fut, None, None])
+        if self._open is not None:
+            self._open.append(self.futs[-1])
 
     def current(self, name, key):
         return self.hist[name][key][-1][1]
@@ -144,8 +147,12 @@ class Watch:
                 v = s.get_sync(k)
                 if h[k][-1][1] != v:
                     h[k].append((t, v))
-        for f in self.futs:
-            if f[2] is None and f[1].is_resolved:
+        if self._open is None:
+            self._open = list(self.futs)
+        done = [f for f in self._open if f[1].is_resolved]
+        if done:
+            self._open = [f for f in self._open if not f[1].is_resolved]
+            for f in done:
                 f[2] = t
                 if self.on_resolved is not None:
                     self.on_resolved(f, t)
